@@ -395,9 +395,10 @@ def check_copy_result(case, stats, fail, say, lib, env, orig, S, res, parent, ev
                 continue
             if ro.reference_circuit is S:
                 if rc.reference_circuit is not P:
-                    eq = any(is_comp(x) and core.value_equal(x, S) for x, _ in ls)
+                    eq = next((x for x, _ in ls if is_comp(x) and core.value_equal(x, S)), None)
+                    how = "" if eq is None else ":" + core.twin_origin(eq, S, {id(x): q for x, q in ls}, S)
                     fail("RegistryAcquisitionStrategy.copy:registry-not-re-targeted-to-the-enclosing-circuit" +
-                         (":lookup-entry-of-the-added-circuit-overwritten-by-a-value-equal-sub-circuit" if eq else ""),
+                         (":lookup-entry-of-the-added-circuit-overwritten-by-a-value-equal-sub-circuit" + how if eq is not None else ""),
                          "a measurement that counted in the added circuit counts in the enclosing circuit after add", "RegistryAcquisitionStrategy.copy",
                          {"phase": "action"}, "original circuit" if rc.reference_circuit is S else type(rc.reference_circuit).__name__, "enclosing circuit")
                     continue
